@@ -306,10 +306,28 @@ func init() {
 						rings = append(rings, outer)
 						for hcount := r.Intn(4); hcount > 0; hcount-- {
 							rings = append(rings, randRing(r, r.Range(3, 6), 6, float64(r.Intn(10))+pox, float64(r.Intn(10))+poy))
+							if r.P(1, 6) {
+								// a hole with the very coordinates of the outer ring or of another hole (as it is, started elsewhere,
+								// or the other way round): related members of one argument, not independently drawn ones
+								src := rings[r.Intn(len(rings)-1)]
+								cp := append([]P{}, src...)
+								switch r.Intn(4) {
+								case 0:
+									k := r.Intn(len(cp))
+									cp = append(cp[k:], cp[:k]...)
+								case 1:
+									for i, j := 0, len(cp)-1; i < j; i, j = i+1, j-1 {
+										cp[i], cp[j] = cp[j], cp[i]
+									}
+								}
+								rings[len(rings)-1] = cp
+								c.Count("holes_with_the_coordinates_of_another_ring_of_the_polygon", 1)
+							}
 						}
+						closeAll := r.Intn(3) // 0: each ring as it comes, 1: all closed, 2: none
 						for _, rr := range rings {
 							v := rr
-							if r.Bool() {
+							if closeAll == 1 || closeAll == 0 && r.Bool() {
 								v = append(append([]P{}, rr...), rr[0])
 							}
 							poly = append(poly, pToRing(v))
